@@ -208,8 +208,16 @@ def _period(recipe: dict):
     return first, n
 
 
-def _alter_observed(y: np.ndarray, obs: str, g) -> np.ndarray:
+def _alter_observed(y: np.ndarray, obs: str, g, idx=None) -> np.ndarray:
     y = y.copy()
+    if obs == "monthnan" and idx is not None and len(idx) == len(y) and len(y) > 40:
+        # an outage covering one whole calendar month (the first full one after the first third of the period)
+        per = (idx[len(idx) // 3] + pd.Timedelta(days=32)).tz_localize(None).to_period("M")
+        m = np.asarray(idx.tz_localize(None).to_period("M") == per)
+        if 0 < m.sum() < len(y) - 2:
+            y = y * 0.9
+            y[m] = np.nan
+            return y
     if obs == "present":
         return y * 0.9
     if obs == "scaled":
@@ -312,7 +320,7 @@ def build(recipe: dict):
                 np.arange(3, len(y) - 3), max(1, len(y) // 120), replace=False)] = 0.0
         if role == "reporting":
             if fam == "daily":
-                y = _alter_observed(y, obs, ga)
+                y = _alter_observed(y, obs, ga, days)
             # billing: the alteration is applied to the bills themselves (see _billing_ctor), so that "partly blank"
             # means missing bills, not bills that silently sum fewer days
             if recipe.get("tgap"):
@@ -351,7 +359,7 @@ def build(recipe: dict):
         y[np.random.default_rng(_seed("zeros", recipe["mid"], first, n)).choice(
             np.arange(30, len(y) - 30), max(1, len(y) // 500), replace=False)] = 0.0
     if role == "reporting":
-        y = _alter_observed(y, obs, ga)
+        y = _alter_observed(y, obs, ga, hidx)
         if recipe.get("tgap") and len(temp_h) > 72:
             temp_h = temp_h.copy()
             sel = gt.choice(np.arange(24, len(temp_h) - 24), size=max(2, len(temp_h) // 400), replace=False)
@@ -448,7 +456,7 @@ def _billing_ctor(recipe, days, y, temp_series, electric, obs, ga=None):
         return dict(cls=cls, how="from_series", args=[None, temp_series], kwargs=kwargs, inputs=[temp_series])
     idx, vals, _ = _bill_reads(days, y, bill, recipe["mid"])
     if ga is not None and obs not in ("raw", "absent"):
-        vals = _alter_observed(vals, obs, ga)
+        vals = _alter_observed(vals, obs, ga)   # bills: a block of bills, no calendar alignment
     # final read closes the last period: its own value is never used (NaN convention)
     end = (days[-1].tz_localize(None) + pd.Timedelta(days=1)).tz_localize(days.tz)  # days.tz is the tzinfo object
     idx = idx.append(pd.DatetimeIndex([end]))
